@@ -34,6 +34,10 @@ TOPOLOGIES = {
     "popen2": ["popen//id=a//execmodel={m}", "popen//id=b//execmodel={m}"],
     "via": ["popen//id=m//execmodel=thread", "popen//via=m//id=a//execmodel={m}"],
     "socket": ["popen//id=m//execmodel={m}", "socket//installvia=m//id=a"],
+    # a nested proxy chain: a is reached through b which is reached through m
+    "via2": ["popen//id=m//execmodel=thread", "popen//via=m//id=b//execmodel=thread", "popen//via=b//id=a//execmodel={m}"],
+    # a proxy chain next to an independent direct member
+    "via+popen": ["popen//id=m//execmodel=thread", "popen//via=m//id=a//execmodel={m}", "popen//id=b//execmodel={m}"],
 }
 
 
@@ -62,7 +66,7 @@ class TermScn:
                 em.sleep(1.0)
             # the virtual process hosting worker "a"
             procs = w.procs
-            host = {"popen": 1, "popen2": 1, "via": 2, "socket": 1}[P["topo"]]
+            host = {"popen": 1, "popen2": 1, "via": 2, "socket": 1, "via2": 3, "via+popen": 2}[P["topo"]]
             if st == "stopped":
                 vworld.signal_proc(procs[host], 19)
             elif st == "dead":
@@ -70,7 +74,10 @@ class TermScn:
                 em.sleep(0.5)
             w.exploring = True
             t0 = w.now
-            g.terminate(timeout=P["timeout"])
+            try:
+                g.terminate(timeout=P["timeout"])
+            except BaseException as e:  # noqa: BLE001
+                S.ctx["exc"] = f"{type(e).__name__}: {str(e)[:200]}"
             S.ctx["elapsed"] = w.now - t0
             S.ctx["len"] = len(g)
             w.exploring = False
@@ -92,7 +99,7 @@ class TermScn:
     def oracle(w, S, P):
         ctx = S.ctx
         t = P["timeout"]
-        rounds = 2 if P["topo"] == "via" else 1
+        rounds = {"via": 2, "via+popen": 2, "via2": 3}.get(P["topo"], 1)
         bound = rounds * 4 * t + 0.5
         outcome = (round(ctx.get("elapsed", -1), 2), tuple(a for _, a in ctx.get("local_children", [])))
 
@@ -101,6 +108,8 @@ class TermScn:
 
         if not ctx.get("done"):
             return V("terminate-hang", "terminate() never returned")
+        if ctx.get("exc"):
+            return V("terminate-raised", f"terminate({t}) raised {ctx['exc']}")
         if ctx["elapsed"] > bound:
             return V("terminate-slow", f"terminate({t}) took {ctx['elapsed']} virtual s, bound {bound}")
         if ctx["len"] != 0:
@@ -217,6 +226,8 @@ def run(tier: str, only=None) -> int:
                         if moment == "immediately" and state in ("stopped", "dead"):
                             continue
                         if tier == "quick":
+                            if topo in ("via2", "via+popen") and (model != "thread" or state not in ("idle", "sleep", "swallow", "stopped") or moment != "settled"):
+                                continue
                             if timeout == 2.0 and not (topo == "popen" and model == "thread"):
                                 continue
                             if model == "gevent" and topo != "popen":
